@@ -102,8 +102,11 @@ func kdfOracle(c kdfCase) ev.Verdict {
 		keySnap := append([]byte{}, key...)
 		var args [][]byte
 		var snaps [][]byte
+		var embs []*embedded
 		for _, p := range s.Params {
-			pp := append([]byte{}, p...)
+			e := emb(p) // a parameter is usually a slice of something larger (RAND inside a message, a name inside a buffer)
+			embs = append(embs, e)
+			pp := e.s()
 			args = append(args, pp, UeauCommon.KDFLen(pp))
 			snaps = append(snaps, append([]byte{}, p...))
 		}
@@ -125,6 +128,10 @@ func kdfOracle(c kdfCase) ev.Verdict {
 			return v
 		}
 		for j := range snaps {
+			if !embs[j].intact() {
+				v.Key, v.Err = "kdf:param-memory-modified", fmt.Errorf("call %d wrote into or behind parameter %d", i, j)
+				return v
+			}
 			if !bytes.Equal(args[2*j], snaps[j]) {
 				v.Key, v.Err = "kdf:param-modified", fmt.Errorf("call %d modified parameter %d", i, j)
 				return v
